@@ -331,7 +331,7 @@ def strategy(tier):
 
 def units(tier, seed):
     n = 16 if tier == 'quick' else 32
-    per = 60 if tier == 'quick' else 2500
+    per = 60 if tier == 'quick' else 800
     return [{'kind': 'random', 'n': per, 'seed': core.shard_seed(seed, ID, i)} for i in range(n)]
 
 
